@@ -17,6 +17,20 @@ class Budget(Exception):
     pass
 
 
+def plain_data(ty, depth=0):
+    """integers, bool, and tuples / Options of such: no references, no type parameters, no user types"""
+    k = ty.get('k')
+    if k == 'prim':
+        return ty.get('name') in ('usize', 'isize', 'u8', 'u16', 'u32', 'u64', 'u128', 'i8', 'i16', 'i32', 'i64', 'i128', 'bool')
+    if depth > 3:
+        return False
+    if k == 'tuple':
+        return bool(ty['elems']) and all(plain_data(e, depth + 1) for e in ty['elems'])
+    if k == 'adt' and ty.get('path') == OPTION:
+        return all(plain_data(a, depth + 1) for a in ty.get('args', []) if a.get('k') != 'lifetime') and bool(ty.get('args'))
+    return False
+
+
 class Engine(Interp):
 
     # ------------------------------------------------------------------ canonicalisation / joins
@@ -419,6 +433,12 @@ class Engine(Interp):
             out = []
             for s, v in self.eval_rvalue(st, fid, stmt['rv']):
                 ptr = self.eval_place(s, fid, stmt['place'])
+                if v[0] == 'opq' and not stmt['place']['proj']:
+                    # an opaque value (e.g. an element loaded from a local array of plain data) stored into a
+                    # local of a plain-data type: from here on it is an unknown value OF THAT TYPE
+                    ty = body.locals[stmt['place']['local']]['ty']
+                    if plain_data(ty):
+                        v = self.mk_unknown(s, ty, v[1] if isinstance(v[1], tuple) else (v[1],), self.gs_of(s, fid))
                 out.extend(self.store(s, ptr, v))
             return out
         if k == 'dead':
